@@ -36,7 +36,8 @@ def run(ctx):
     astuple = c18.as_tuple_fns(prog, acc)
     sites, names = builders.suggestion_ctor_sites(prog)
     lb = [fk for (fk, bb, t, kind) in sites if kind == "list" and (prog.fns[fk].get("impl") or {}).get("self") == fx
-          and any(callee_name(t2).endswith("::clear") for (_, t2) in prog.body(fk).calls())]
+          and any(callee_name(t2).endswith("::clear") and t2["args"] and t2["args"][0]["k"] != "const" and "Vec<suggestion::Rank>" in t2["args"][0]["place"]["ty"]
+                  for (_, t2) in prog.body(fk).calls())]           # the function that clears the candidate list and hands it to the list constructor
     if len(lb) != 1:
         chk.rule("C15.anchor", "anchors").undecidable("builder", "fixed list builder matched %s" % lb)
         return
